@@ -258,6 +258,6 @@ func TestC17(t *testing.T) {
 		// the loop's two timers regularly expire at the same instant; which select case runs first is the Go
 		// runtime's (unseedable) choice. The oracle holds on every such choice; a replay may need several attempts.
 		ReplayAttempts: 25,
-		QuickBudget: 25 * time.Second, ThoroughBudget: 8 * time.Minute,
+		QuickBudget:    25 * time.Second, ThoroughBudget: 8 * time.Minute,
 	})
 }
